@@ -428,7 +428,10 @@ Section Resume.
       | Ok hin =>
         let view := drop base file in
         match read_header hdrdec (w_maxh o) view with
-        | Err e => inr (e, dv0)
+        | Err e => (* fmt.Errorf("error reading car header: %w", err): the wrapped error is no longer
+                      == io.EOF, so a bare EOF surfaces as an ordinary error (the too-large class is
+                      recognised through the wrapping) *)
+                   inr (match e with EEof => EOther | _ => e end, dv0)
         | Ok (hroots, hver, _, _) =>
           if negb (header_matches hroots hver roots) then inr (EOther, dv0) else
           let dv1 := match hin with
